@@ -42,9 +42,9 @@ static void explore(int depth_left) {
 		fflush(stdout); pid_t pid = fork();
 		if (pid < 0) { perror("fork"); _exit(2); }
 		if (pid == 0) {
-			H.push_back(o); ++SH->transitions;
+			H.push_back(o); ++SH->transitions; alarm(300);   // an operation that does not return is reported by the parent as abnormal termination
 			unsigned long before = W.hashes_checked;
-			bool ok = W.apply(o); SH->hashes += W.hashes_checked - before;
+			bool ok = W.apply(o); SH->hashes += W.hashes_checked - before; alarm(0);
 			if (!ok) { record(H, W.problem, 0); _exit(0); }
 			if (state_check) { std::string sc = state_check(W); if (!sc.empty()) { record(H, sc, 0); _exit(0); } }
 			uint64_t d = W.digest();
